@@ -736,13 +736,18 @@ fn gen_actor(p: &Profile, rng: &mut Rng) -> Case {
             match which {
                 0 => {
                     // send-like: addr / owning / sender / weaksender
-                    let (hh, _) = pick_kind(&owned[c], &[0, 6, 1, 3], g.rng).unwrap_or((h, kind));
+                    let (hh, hk) = pick_kind(&owned[c], &[0, 6, 1, 3], g.rng).unwrap_or((h, kind));
                     let m = g.m();
                     let mut script = g.script();
                     if panic_at == Some(m) {
                         script.push(Act::Panic);
                     }
-                    ops.push(Op::Send { h: hh, m, script });
+                    if hk == 3 && g.rng.chance(1, 3) {
+                        // the forcing path of a weak sender (never waits for mailbox space)
+                        ops.push(Op::ForceSend { h: hh, m, script });
+                    } else {
+                        ops.push(Op::Send { h: hh, m, script });
+                    }
                 }
                 1 => {
                     let (hh, _) = pick_kind(&owned[c], &[0, 6, 2, 4], g.rng).unwrap_or((h, kind));
@@ -1022,7 +1027,7 @@ fn gen_small(rng: &mut Rng) -> Case {
         if !a_has {
             break;
         }
-        match rng.below(17) {
+        match rng.below(18) {
             0 => {
                 next_m += 1;
                 a_ops.push(Op::Send { h: 1, m: next_m, script: script_for(&mut first_msg, vec![]) });
@@ -1065,6 +1070,16 @@ fn gen_small(rng: &mut Rng) -> Case {
                 a_ops.push(Op::Send { h: 1, m: next_m, script: script_for(&mut first_msg, vec![Act::CtxRestart]) });
             }
             14 => a_ops.push(if rng.chance(1, 2) { Op::Stopped { h: 1 } } else { Op::Running { h: 1 } }),
+            17 => {
+                // WeakSender::try_force_send, twice in a row (never waits, bounded or not)
+                let hw = next_h;
+                next_h += 1;
+                a_ops.push(Op::MkWeakSender { h: 1, h2: hw });
+                for _ in 0..2 {
+                    next_m += 1;
+                    a_ops.push(Op::ForceSend { h: hw, m: next_m, script: script_for(&mut first_msg, vec![]) });
+                }
+            }
             15 => {
                 // a weak handle, upgraded later
                 let hw = next_h;
